@@ -29,7 +29,17 @@
   Lemmas that follow the generated text (first to break when decoder_buffer.go changes): `writeByte_loop_step`,
   `write_loop_step`, `writeBlock_loop_step` (one iteration of each retry loop in terms of the model operations);
   `write_model_unfold`, `writeBlock_model_unfold` restate one step of the model recursion without `let`s.
+
+  Shape independence (robustness round 2).  The loop functions are never applied positionally: `wbLoop`, `wLoop`,
+  `wkLoop` call them BY NAME of the Go variables (`gcall%` / `gproj%` below) and return the result in a fixed order,
+  so the order / number of the loop-state components and whether the named result `err` is captured, carried or
+  absent do not matter; `decoder_writeByte_eq`, `decoder_write_eq`, `decoder_writeBlock_eq` connect the translated
+  methods with these wrappers.  The step lemmas unfold the loop function, rewrite each callee by its specification
+  (`d.buf.WriteTo(d.w)` or `d.Flush()`: `rep_flush`), decide arithmetic conditions by `omega` whatever their spelling
+  (`rw [if_pos (by omega)]`, `slice_okI … (by omega)`), error comparisons by `simp` with `genErr_*_iff` (both operand
+  orders), and leave the value of the carried `err` existential (`∃ err'`, closed by `loop_step_close`).
 -/
+import Lean
 import LzModel.Generated.CodeDecoder
 import LzProofs.GenBufPropsD
 import LzProofs.GenBufPropsDCopy
@@ -40,6 +50,97 @@ set_option linter.unusedVariables false
 
 namespace LZ.GenDec
 open LZ LZ.Gen LZ.GenBuf
+
+/-! ## calling a generated loop function BY NAME
+
+The translator emits one recursive function per Go loop; its explicit arguments are the read-only captured variables
+(parameters before the colon), the fuel, and the loop STATE (the variables assigned in the loop) — the order and the
+number of the state components follow the Go text (first assignment), the result is `(exit, state…)` in the same order.
+A harmless rewrite (a local declared inside instead of outside the loop, two independent statements swapped, a named
+result that is no longer shadowed) changes that order/arity.  So the lemmas below never apply a loop function
+positionally: `gcall% f [x := e, …]` builds the application from the GO VARIABLE NAMES (read off the defining equation
+of `f`: header binders and the pattern variables of the last `match` alternative), `gproj% f x r` is the component of
+the result tuple `r` that belongs to the state variable `x`.  Names that `f` does not have are ignored (a variable that
+is no longer captured), arguments that are not given are `_` (an error unless unification finds them).  Both are pure
+notation: the elaborated term is an ordinary application / projection checked by the kernel. -/
+section GenCall
+open Lean Elab Term Meta
+
+/-- argument names of the generated function `f` (Go variable names), and the position of the fuel argument of a
+    loop function (`none` for a function that is not defined by `match` on the fuel) -/
+def genArgNames (f : Name) : MetaM (Array Name × Option Nat) := do
+  let some u ← getUnfoldEqnFor? f (nonRec := true) | throwError "gcall%: no defining equation for {f}"
+  let info ← getConstInfo u
+  forallTelescope info.type fun xs body => do
+    let some (_, _, rhs) := body.eq? | throwError "gcall%: unexpected defining equation {u}"
+    let hdr ← xs.mapM fun x => return (← x.fvarId!.getUserName).eraseMacroScopes
+    match ← matchMatcherApp? rhs with
+    | some app =>
+      let rec names (e : Expr) (acc : Array Name) : Array Name := match e with
+        | .lam n _ b _ => names b (acc.push n.eraseMacroScopes)
+        | _ => acc
+      let alt := names app.alts.back! #[]
+      if alt.size > hdr.size then throwError "gcall%: unexpected defining equation {u}"
+      return (hdr.extract 0 (hdr.size - alt.size) ++ alt, some (hdr.size - alt.size))
+    | none => return (hdr, none)
+
+declare_syntax_cat garg
+syntax ident " := " term : garg
+
+/-- `gcall% f [x := e, …]`: `f` applied to the given arguments, matched by name -/
+elab "gcall% " f:ident " [" as:garg,* "]" : term => do
+  let fn ← realizeGlobalConstNoOverloadWithInfo f
+  let (names, _) ← genArgNames fn
+  let mut given : Array (Name × Term) := #[]
+  for a in as.getElems do
+    match a with
+    | `(garg| $x:ident := $t:term) => given := given.push (x.getId, t)
+    | _ => throwUnsupportedSyntax
+  let mut args : Array Term := #[]
+  for n in names do
+    match given.find? (·.1 == n) with
+    | some (_, t) => args := args.push t
+    | none => args := args.push (← `(_))
+  elabTerm (← `(@$(mkIdent fn) $args*)) none
+
+/-- `gproj% f x r`: the component of the result `r = (exit, state…)` of the loop function `f` for the state variable `x` -/
+elab "gproj% " f:ident x:ident r:term:max : term => do
+  let fn ← realizeGlobalConstNoOverloadWithInfo f
+  let (names, some i) ← genArgNames fn | throwError "gproj%: {f.getId} is not a loop function"
+  let state := names.extract (i + 1) names.size
+  let some j := state.findIdx? (· == x.getId)
+    | throwError "gproj%: {fn} has no state variable {x.getId}; its state is {state}"
+  let mut t : Term := r
+  for _ in [0:j+1] do t ← `($t.2)
+  if j + 1 < state.size then t ← `($t.1)
+  elabTerm t none
+
+end GenCall
+
+/-- `Res.bind` is associative -/
+theorem bind_assoc {α β γ : Type} (m : Res α) (f : α → Res β) (k : β → Res γ) :
+    Res.bind (Res.bind m f) k = Res.bind m (fun a => Res.bind (f a) k) := by
+  cases m <;> rfl
+
+/-- two continuations that agree on the value of `m` -/
+theorem bind_congr_ok {α β : Type} {m : Res α} {f k : α → Res β} (h : ∀ a, m = Res.ok a → f a = k a) :
+    Res.bind m f = Res.bind m k := by
+  cases m with
+  | ok a => exact h a rfl
+  | _ => rfl
+
+theorem bind_eq_ok {α β : Type} {m : Res α} {f : α → Res β} {b : β} (h : Res.bind m f = Res.ok b) :
+    ∃ a, m = Res.ok a ∧ f a = Res.ok b := by
+  cases m with
+  | ok a => exact ⟨a, rfl, h⟩
+  | _ => exact absurd h (by simp [Res.bind])
+
+/-- `s[a:b]` with `Int` bounds given up to (linear) equations: `rw [slice_okI s _ _ i j (by omega) (by omega) …]`
+    rewrites the first slice expression of `s` whatever the spelling of its bounds -/
+theorem slice_okI (s : Slice) (a b : Int) (i j : Nat) (ha : a = (i : Int)) (hb : b = (j : Int))
+    (hij : i ≤ j) (hj : j ≤ s.arr.length) :
+    Slice.slice s a b = Res.ok { arr := s.arr.drop i, len := j - i } := by
+  subst ha hb; exact slice_ok s i j hij hj
 
 /-! ## errors, the scripted writer as the opaque callee -/
 
@@ -70,6 +171,12 @@ theorem genErr_ok_iff (e : LZ.Err) : genErr e = Gen.Err.ok ↔ e = .ok := by
 theorem genErr_full_iff (e : LZ.Err) : genErr e = Gen.ErrFullBuffer ↔ e = .full := by
   cases e <;> simp [genErr, Gen.ErrEmptyBuffer, Gen.ErrFullBuffer, Gen.io_EOF, Gen.ErrOutOfBuffer, Gen.ErrEndOfBuffer,
     Gen.errLitLen, Gen.errMatchLen, Gen.errOffset, Gen.io_ErrShortWrite] <;> omega
+
+theorem genErr_ok_iff' (e : LZ.Err) : Gen.Err.ok = genErr e ↔ e = .ok := by
+  rw [eq_comm]; exact genErr_ok_iff e
+
+theorem genErr_full_iff' (e : LZ.Err) : Gen.ErrFullBuffer = genErr e ↔ e = .full := by
+  rw [eq_comm]; exact genErr_full_iff e
 
 theorem genErr_of_errOf {e : Gen.Err} {m : LZ.Err} (h : errOf e = some m) : e = genErr m := by
   unfold errOf at h
@@ -106,9 +213,8 @@ theorem gen_dbuf_writeTo (b : DecoderBuffer) (h : DBWF b) (hr : b.R ≤ b.Data.l
   obtain ⟨r, hrr⟩ : ∃ r : Nat, b.R = (r : Int) := ⟨b.R.toNat, by omega⟩
   have hrl : r ≤ b.Data.len := by omega
   unfold DecoderBuffer_WriteTo
-  have hsl : Slice.slice b.Data b.R (Int.ofNat b.Data.len) = Res.ok { arr := b.Data.arr.drop r, len := b.Data.len - r } := by
-    rw [hrr]; exact slice_ok b.Data r b.Data.len hrl hswf
-  rw [hsl]
+  simp only [Int.ofNat_eq_natCast]
+  rw [slice_okI b.Data _ _ r b.Data.len (by omega) (by omega) hrl hswf]
   simp only [bind_ok, mWrite]
   have hpd : ({ arr := b.Data.arr.drop r, len := b.Data.len - r } : Slice).data = (ofDB b).data.drop (ofDB b).r := by
     rw [slice_data b.Data hd r b.Data.len hrl (Nat.le_refl _)]
@@ -128,13 +234,10 @@ theorem gen_dbuf_writeTo (b : DecoderBuffer) (h : DBWF b) (hr : b.R ≤ b.Data.l
   refine ⟨{ b with R := b.R + (k : Int) }, ?_, ?_, ⟨hd, by show (0 : Int) ≤ b.R + (k : Int); omega, ho0, hw0, hb0⟩⟩
   · congr 1
     simp only [Prod.mk.injEq, true_and]
-    simp only [genErr_ok_iff, hpl, Int.ofNat_eq_natCast]
-    by_cases hc : e = Err.ok ∧ k < b.Data.len - r
-    · have hc' : e = Err.ok ∧ (k : Int) < ((b.Data.len - r : Nat) : Int) := ⟨hc.1, by omega⟩
-      simp only [hc, hc', and_self, if_true]; rfl
-    · have hc' : ¬ (e = Err.ok ∧ (k : Int) < ((b.Data.len - r : Nat) : Int)) := by
-        intro hh; exact hc ⟨hh.1, by omega⟩
-      simp only [hc, hc', if_false]
+    -- the error component: the test `err == nil && k < len(p)` in any spelling / order of the conjuncts
+    by_cases he : e = Err.ok <;> by_cases hk' : k < b.Data.len - r <;>
+      simp only [he, hk', hpl, genErr_ok_iff, genErr_ok_iff', Int.ofNat_lt, gt_iff_lt, and_self, and_true, true_and,
+        and_false, false_and, if_true, if_false] <;> rfl
   · simp only [ofDB, hrr]
     congr 1 <;> omega
 
@@ -166,6 +269,17 @@ theorem gen_decoder_flush {gd : Gen.Decoder Writer} {d : LZ.Decoder} (hrep : Rep
     ∃ gd', Decoder_Flush mWrite gd = Res.ok (gd', genErr d.flush.2) ∧ Rep gd' d.flush.1 := by
   obtain ⟨gd', e1, e2⟩ := rep_writeTo hrep hinv
   refine ⟨gd', ?_, e2⟩
+  unfold Decoder_Flush
+  rw [e1]
+  rfl
+
+/-- `d.buf.WriteTo(d.w)` and `d.Flush()` on a represented decoder: both spellings of the call give the same decoder -/
+theorem rep_flush {gd : Gen.Decoder Writer} {d : LZ.Decoder} (hrep : Rep gd d) (hinv : DecBuf.Inv d.buf) :
+    ∃ gd' : Gen.Decoder Writer, DecoderBuffer_WriteTo mWrite gd.buf gd.w =
+        Res.ok (gd'.buf, gd'.w, (d.writeTo.2.1 : Int), genErr d.writeTo.2.2) ∧
+      Decoder_Flush mWrite gd = Res.ok (gd', genErr d.writeTo.2.2) ∧ Rep gd' d.writeTo.1 := by
+  obtain ⟨gd', e1, e2⟩ := rep_writeTo hrep hinv
+  refine ⟨gd', e1, ?_, e2⟩
   unfold Decoder_Flush
   rw [e1]
   rfl
@@ -202,7 +316,7 @@ theorem gen_decoder_init (gd : Gen.Decoder Writer) (w : Writer) (cfg : Gen.Decod
     refine ⟨e, ?_, e2⟩
     unfold Decoder_Init
     rw [e1]
-    simp only [bind_ok, e2, ne_eq, not_false_eq_true, if_true]
+    simp only [bind_ok, e2, ne_eq, not_false_eq_true, if_true, if_false]
 
 /-! ## WriteByte -/
 
@@ -217,43 +331,71 @@ theorem rep_buf_writeByte (g : Grow) (hg : GrowOK g) {gd : Gen.Decoder Writer} {
   · rw [e1, genErr_of_errOf e3]; rfl
   · simp only [absD, e2]
 
+/-- closes `∃ err', lhs = rhs` at the end of a loop-step lemma: `err'` is whatever the recursive call carries (found by
+    unification), or irrelevant -/
+macro "loop_step_close" : tactic =>
+  `(tactic| first | exact ⟨_, rfl⟩ | exact ⟨Gen.Err.ok, rfl⟩ | exact ⟨Gen.Err.ok, trivial⟩)
+
+/-- the retry loop of `WriteByte`, called by name (`err` is ignored when the loop does not carry it), with the result
+    in the fixed order (exit, d, ret_1) -/
+def wbLoop (g : Grow) (c : UInt8) (fuel : Nat) (gd : Gen.Decoder Writer) (err ret : Gen.Err) :
+    Res (Nat × Gen.Decoder Writer × Gen.Err) :=
+  Res.bind (gcall% Decoder_WriteByte_loop_1 [grow := g, io_Writer_Write := mWrite, c := c, fuel := fuel, d := gd,
+      err := err, ret_1 := ret])
+    fun r => Res.ok (r.1, gproj% Decoder_WriteByte_loop_1 d r, gproj% Decoder_WriteByte_loop_1 ret_1 r)
+
+/-- `Decoder_WriteByte` = its loop + `return ret_1` -/
+theorem decoder_writeByte_eq (g : Grow) (fuel : Nat) (gd : Gen.Decoder Writer) (c : UInt8) :
+    Decoder_WriteByte g fuel mWrite gd c =
+      Res.bind (wbLoop g c fuel gd Gen.Err.ok Gen.Err.ok) fun r => Res.ok (r.2.1, r.2.2) := by
+  unfold Decoder_WriteByte wbLoop
+  simp only [bind_assoc, bind_ok]
+
 /-- one iteration of the retry loop of `WriteByte`, in terms of the model operations -/
 theorem writeByte_loop_step (g : Grow) (hg : GrowOK g) {gd : Gen.Decoder Writer} {d : LZ.Decoder} (hrep : Rep gd d)
     (hinv : DecBuf.Inv d.buf) (c : UInt8) :
     let d1 : LZ.Decoder := { d with buf := (d.buf.writeByte g c).1 }
     let e := (d.buf.writeByte g c).2
     ∃ gd1 gd2, Rep gd1 d1 ∧ Rep gd2 d1.writeTo.1 ∧
-      ∀ (f : Nat) (err ret : Gen.Err), Decoder_WriteByte_loop_1 g mWrite c (f + 1) gd err ret =
-        if e ≠ .full then Res.ok (1, gd1, genErr e, genErr e)
-        else if d1.writeTo.2.2 ≠ .ok then Res.ok (1, gd2, genErr d1.writeTo.2.2, genErr d1.writeTo.2.2)
-        else Decoder_WriteByte_loop_1 g mWrite c f gd2 Gen.Err.ok ret := by
+      ∀ (f : Nat) (err ret : Gen.Err), ∃ err', wbLoop g c (f + 1) gd err ret =
+        if e ≠ .full then Res.ok (1, gd1, genErr e)
+        else if d1.writeTo.2.2 ≠ .ok then Res.ok (1, gd2, genErr d1.writeTo.2.2)
+        else wbLoop g c f gd2 err' ret := by
   intro d1 e
   obtain ⟨b', e1, e2⟩ := rep_buf_writeByte g hg hrep c
   have hinv1 : DecBuf.Inv d1.buf := (C06_buf_writeByte_inv g d.buf c hinv).1
-  obtain ⟨gd2, f1, f2⟩ := rep_writeTo e2 hinv1
+  obtain ⟨gd2, f1, fl1, f2⟩ := rep_flush e2 hinv1
   refine ⟨⟨b', gd.w⟩, gd2, e2, f2, ?_⟩
   intro f err ret
+  unfold wbLoop
   rw [Decoder_WriteByte_loop_1]
   rw [e1]
-  simp only [bind_ok, ne_eq, genErr_full_iff]
+  simp only [bind_ok]
   by_cases h1 : (d.buf.writeByte g c).2 = .full
-  · simp only [e, h1, not_true_eq_false, if_false]
+  · simp only [e, h1, ne_eq, genErr_full_iff, genErr_full_iff', genErr_ok_iff, genErr_ok_iff', not_true_eq_false,
+      not_false_eq_true, if_true, if_false]
     simp only [] at f1
-    rw [f1]
-    simp only [bind_ok, genErr_ok_iff]
+    first | rw [f1] | rw [fl1]
+    simp only [bind_ok]
     by_cases h2 : d1.writeTo.2.2 = .ok
     · simp only [d1] at h2
-      simp only [d1, h2, not_true_eq_false, if_false]; rfl
+      simp only [d1, h2, ne_eq, genErr_full_iff, genErr_full_iff', genErr_ok_iff, genErr_ok_iff', not_true_eq_false,
+        not_false_eq_true, if_true, if_false, reduceCtorEq]
+      loop_step_close
     · simp only [d1] at h2
-      simp only [d1, h2, not_false_eq_true, if_true]
-  · simp only [e, h1, not_false_eq_true, if_true]
+      simp only [d1, h2, ne_eq, genErr_full_iff, genErr_full_iff', genErr_ok_iff, genErr_ok_iff', not_true_eq_false,
+        not_false_eq_true, if_true, if_false, bind_ok]
+      loop_step_close
+  · simp only [e, h1, ne_eq, genErr_full_iff, genErr_full_iff', genErr_ok_iff, genErr_ok_iff', not_true_eq_false,
+      not_false_eq_true, if_true, if_false, bind_ok]
+    loop_step_close
 
 /-- the retry loop of `WriteByte` = the model's recursion, for every fuel above the number of unflushed bytes,
     provided the model does not take its "would spin forever" branch (`hangErr`; excluded by C06) -/
 theorem writeByte_loop_eq (g : Grow) (hg : GrowOK g) (c : UInt8) : ∀ (d : LZ.Decoder), DecBuf.Inv d.buf →
     (d.writeByte g c).2 ≠ hangErr → ∀ (gd : Gen.Decoder Writer), Rep gd d → ∀ (fuel : Nat), d.unflushed < fuel →
-    ∀ (err ret : Gen.Err), ∃ gd' e', Decoder_WriteByte_loop_1 g mWrite c fuel gd err ret =
-        Res.ok (1, gd', e', genErr (d.writeByte g c).2) ∧ Rep gd' (d.writeByte g c).1 := by
+    ∀ (err ret : Gen.Err), ∃ gd', wbLoop g c fuel gd err ret =
+        Res.ok (1, gd', genErr (d.writeByte g c).2) ∧ Rep gd' (d.writeByte g c).1 := by
   intro d
   induction d using Decoder.writeByte.induct g c with
   | case1 x b e hwb he =>
@@ -262,8 +404,10 @@ theorem writeByte_loop_eq (g : Grow) (hg : GrowOK g) (c : UInt8) : ∀ (d : LZ.D
     obtain ⟨gd1, gd2, r1, r2, hstep⟩ := writeByte_loop_step g hg hrep hinv c
     rw [Decoder.writeByte]
     simp only [hwb] at hstep r1 r2 ⊢
-    simp only [he, ne_eq, not_false_eq_true, if_true] at hstep ⊢
-    exact ⟨gd1, _, hstep f err ret, r1⟩
+    simp only [he, ne_eq, not_false_eq_true, if_true] at ⊢
+    obtain ⟨err', hs⟩ := hstep f err ret
+    simp only [he, ne_eq, not_false_eq_true, if_true] at hs
+    exact ⟨gd1, hs, r1⟩
   | case2 x b e hwb d1 he d' k e2 hwt he2 =>
     intro hinv hnh gd hrep fuel hf err ret
     obtain ⟨f, rfl⟩ : ∃ f, fuel = f + 1 := ⟨fuel - 1, by omega⟩
@@ -272,7 +416,8 @@ theorem writeByte_loop_eq (g : Grow) (hg : GrowOK g) (c : UInt8) : ∀ (d : LZ.D
     simp only [hwb] at hstep r1 r2 ⊢
     simp only [d1] at hwt
     simp only [he, hwt, ne_eq, not_false_eq_true, if_true, if_false, he2] at hstep r2 ⊢
-    exact ⟨gd2, _, hstep f err ret, r2⟩
+    obtain ⟨err', hs⟩ := hstep f err ret
+    exact ⟨gd2, hs, r2⟩
   | case3 x b e hwb d1 he d' k e2 hwt he2 hprog ih =>
     intro hinv hnh gd hrep fuel hf err ret
     obtain ⟨f, rfl⟩ : ∃ f, fuel = f + 1 := ⟨fuel - 1, by omega⟩
@@ -287,7 +432,8 @@ theorem writeByte_loop_eq (g : Grow) (hg : GrowOK g) (c : UInt8) : ∀ (d : LZ.D
     simp only [hwb] at hstep r1 r2 hnh ⊢
     simp only [d1] at hwt
     simp only [he, hwt, ne_eq, not_false_eq_true, if_true, if_false, he2, hprog, and_self, dite_true] at hstep r2 hnh ⊢
-    rw [hstep]
+    obtain ⟨err', hs⟩ := hstep f err ret
+    rw [hs]
     exact ih hinv2 hnh gd2 r2 f (by omega) _ _
   | case4 x b e hwb d1 he d' k e2 hwt he2 hprog =>
     intro hinv hnh
@@ -304,12 +450,10 @@ theorem gen_decoder_writeByte (g : Grow) (hg : GrowOK g) {gd : Gen.Decoder Write
     (hinv : DecBuf.Inv d.buf) (c : UInt8) (fuel : Nat) (hf : d.unflushed < fuel) :
     ∃ gd', Decoder_WriteByte g fuel mWrite gd c = Res.ok (gd', genErr (d.writeByte g c).2) ∧
       Rep gd' (d.writeByte g c).1 := by
-  obtain ⟨gd', e', h1, h2⟩ := writeByte_loop_eq g hg c d hinv (C06_writeByte_no_hang g d c hinv) gd hrep fuel hf
+  obtain ⟨gd', h1, h2⟩ := writeByte_loop_eq g hg c d hinv (C06_writeByte_no_hang g d c hinv) gd hrep fuel hf
     Gen.Err.ok Gen.Err.ok
   refine ⟨gd', ?_, h2⟩
-  unfold Decoder_WriteByte
-  simp only []
-  rw [h1]
+  rw [decoder_writeByte_eq, h1]
   rfl
 
 /-! ## Write -/
@@ -333,32 +477,46 @@ theorem rep_buf_write (g : Grow) (hg : GrowOK g) {gd : Gen.Decoder Writer} {d : 
   · rw [e1, genErr_of_errOf e3]; rfl
   · simp only [absD, e2]
 
-/-- the chunk `q := p; if len(q) > m { q = q[:m] }` -/
-theorem chunk_spec (ps : Slice) (hs : SWF ps) (m : Nat) :
-    ∃ qs, (if (Int.ofNat ps.len) > (m : Int) then Res.bind (Slice.slice ps 0 (m : Int)) fun t_1 => Res.ok t_1
-           else Res.ok ps) = Res.ok qs ∧ SWF qs ∧
-      qs.data = (if ps.data.length > m then ps.data.take m else ps.data) := by
-  have hl := data_length hs
-  by_cases hc : ps.len > m
-  · have hc' : (Int.ofNat ps.len) > (m : Int) := by show (ps.len : Int) > (m : Int); omega
-    have hc2 : ps.data.length > m := by omega
-    simp only [hc', hc2, if_true]
-    have h0 : ((0 : Nat) : Int) = 0 := rfl
-    rw [← h0, slice_ok ps 0 m (Nat.zero_le _) (by unfold SWF at hs; omega)]
-    refine ⟨_, rfl, ?_, ?_⟩
-    · unfold SWF at hs ⊢; simp only [List.drop_zero, Nat.sub_zero]; omega
-    · simp only [Slice.data, List.drop_zero, Nat.sub_zero, List.take_take]
-      congr 1; omega
-  · have hc' : ¬ (Int.ofNat ps.len) > (m : Int) := by show ¬ (ps.len : Int) > (m : Int); omega
-    have hc2 : ¬ ps.data.length > m := by omega
-    simp only [hc', hc2, if_false]
-    exact ⟨ps, rfl, hs, rfl⟩
+/-- the loop of `Write`, called by name (`err`: the named result, captured or carried by the loop or neither), with
+    the result in the fixed order (exit, d, n, p, ret_1, ret_2) -/
+def wLoop (g : Grow) (fuel : Nat) (gd : Gen.Decoder Writer) (n : Int) (ps : Slice) (err : Gen.Err) (r1 : Int)
+    (r2 : Gen.Err) : Res (Nat × Gen.Decoder Writer × Int × Slice × Int × Gen.Err) :=
+  Res.bind (gcall% Decoder_Write_loop_1 [grow := g, io_Writer_Write := mWrite, err := err, fuel := fuel, d := gd,
+      n := n, p := ps, ret_1 := r1, ret_2 := r2])
+    fun r => Res.ok (r.1, gproj% Decoder_Write_loop_1 d r, gproj% Decoder_Write_loop_1 n r,
+      gproj% Decoder_Write_loop_1 p r, gproj% Decoder_Write_loop_1 ret_1 r, gproj% Decoder_Write_loop_1 ret_2 r)
+
+/-- what `Decoder_Write` does with the result of its loop (exit code 1 = `return n, err` inside the loop,
+    0 = the loop ended: `return n, nil`) -/
+def writeFin (r : Nat × Gen.Decoder Writer × Int × Slice × Int × Gen.Err) : Res (Gen.Decoder Writer × Int × Gen.Err) :=
+  if r.1 = 1 then Res.ok (r.2.1, r.2.2.2.2.1, r.2.2.2.2.2) else Res.ok (r.2.1, r.2.2.1, Gen.Err.ok)
+
+/-- `Decoder_Write` = its loop + `writeFin` -/
+theorem decoder_write_eq (g : Grow) (fuel : Nat) (gd : Gen.Decoder Writer) (ps : Slice) :
+    Decoder_Write g fuel mWrite gd ps = Res.bind (wLoop g fuel gd 0 ps Gen.Err.ok 0 Gen.Err.ok) writeFin := by
+  unfold Decoder_Write wLoop
+  simp only [bind_assoc, bind_ok]
+  apply bind_congr_ok
+  intro r _
+  unfold writeFin
+  simp only []
+  repeat' split
+  all_goals first | rfl | omega
+
+/-- the chunk `q := p; if len(q) > m { q = q[:m] }`, as a slice value -/
+theorem chunk_spec (ps : Slice) (hs : SWF ps) (m : Nat) (hm : m < ps.len) :
+    SWF ({ arr := ps.arr.drop 0, len := m - 0 } : Slice) ∧
+      ({ arr := ps.arr.drop 0, len := m - 0 } : Slice).data = ps.data.take m := by
+  constructor
+  · unfold SWF at hs ⊢; simp only [List.drop_zero, Nat.sub_zero]; omega
+  · simp only [Slice.data, List.drop_zero, Nat.sub_zero, List.take_take]
+    congr 1; omega
 
 theorem slice_from (ps : Slice) (hs : SWF ps) (k : Nat) (hk : k ≤ ps.len) :
-    ∃ ps', Slice.slice ps (k : Int) (Int.ofNat ps.len) = Res.ok ps' ∧ SWF ps' ∧ ps'.data = ps.data.drop k := by
-  have hswf : ps.len ≤ ps.arr.length := hs
-  refine ⟨_, slice_ok ps k ps.len hk hswf, ?_, ?_⟩
-  · unfold SWF; simp only [List.length_drop]; omega
+    SWF ({ arr := ps.arr.drop k, len := ps.len - k } : Slice) ∧
+      ({ arr := ps.arr.drop k, len := ps.len - k } : Slice).data = ps.data.drop k := by
+  constructor
+  · unfold SWF at hs ⊢; simp only [List.length_drop]; omega
   · rw [slice_data ps hs k ps.len hk (Nat.le_refl _)]
     rw [List.take_of_length_le]
     simp only [List.length_drop, data_length hs]; omega
@@ -369,60 +527,87 @@ theorem write_loop_step (g : Grow) (hg : GrowOK g) {gd : Gen.Decoder Writer} {d 
     (q : List Byte) (hq : q = if p.length > d.buf.bs - d.buf.ws then p.take (d.buf.bs - d.buf.ws) else p)
     (d1 : LZ.Decoder) (hd1 : d1 = { d with buf := (d.buf.write g q).1 }) :
     ∃ gd1 gd2 ps', Rep gd1 d1 ∧ Rep gd2 d1.writeTo.1 ∧ SWF ps' ∧ ps'.data = p.drop (d.buf.write g q).2.1 ∧
-      ∀ (f : Nat) (err0 : Gen.Err) (n r1 : Int) (r2 : Gen.Err), Decoder_Write_loop_1 g mWrite err0 (f + 1) gd n ps r1 r2 =
-        if (d.buf.write g q).2.2 = .ok then Decoder_Write_loop_1 g mWrite err0 f gd1 (n + ((d.buf.write g q).2.1 : Int)) ps' r1 r2
+      ∀ (f : Nat) (err0 : Gen.Err) (n r1 : Int) (r2 : Gen.Err), ∃ err', wLoop g (f + 1) gd n ps err0 r1 r2 =
+        if (d.buf.write g q).2.2 = .ok then wLoop g f gd1 (n + ((d.buf.write g q).2.1 : Int)) ps' err' r1 r2
         else if (d.buf.write g q).2.2 ≠ .full then
           Res.ok (1, gd1, n + ((d.buf.write g q).2.1 : Int), ps', n + ((d.buf.write g q).2.1 : Int), genErr (d.buf.write g q).2.2)
         else if d1.writeTo.2.2 ≠ .ok then
           Res.ok (1, gd2, n + ((d.buf.write g q).2.1 : Int), ps', n + ((d.buf.write g q).2.1 : Int), genErr d1.writeTo.2.2)
-        else Decoder_Write_loop_1 g mWrite err0 f gd2 (n + ((d.buf.write g q).2.1 : Int)) ps' r1 r2 := by
+        else wLoop g f gd2 (n + ((d.buf.write g q).2.1 : Int)) ps' err' r1 r2 := by
   subst hps
   have hl := data_length hs
   have hwf := hrep.2
   have habs := hrep.1
-  -- the chunk
-  have hm : gd.buf.DecoderConfig.BufferSize - gd.buf.DecoderConfig.WindowSize = ((d.buf.bs - d.buf.ws : Nat) : Int) := by
-    have h1 := hinv.2.1
-    have hb := hwf.bs; have hw := hwf.ws
-    simp only [← habs, absD, ofDB] at h1 ⊢
-    omega
-  obtain ⟨qs, hq1, hq2, hq3⟩ := chunk_spec ps hs (d.buf.bs - d.buf.ws)
+  have hswf : ps.len ≤ ps.arr.length := hs
+  -- the configuration, for `omega`
+  have hlt := hinv.2.1
+  have hbs : gd.buf.DecoderConfig.BufferSize = (d.buf.bs : Int) := by
+    have hb := hwf.bs
+    simp only [← habs, absD, ofDB]; omega
+  have hws : gd.buf.DecoderConfig.WindowSize = (d.buf.ws : Int) := by
+    have hw := hwf.ws
+    simp only [← habs, absD, ofDB]; omega
+  -- the chunk, as a slice
+  obtain ⟨qs, hqs, hq2, hq3⟩ : ∃ qs : Slice, (qs = if ps.len > d.buf.bs - d.buf.ws then
+      { arr := ps.arr.drop 0, len := (d.buf.bs - d.buf.ws) - 0 } else ps) ∧ SWF qs ∧ qs.data = q := by
+    refine ⟨_, rfl, ?_⟩
+    rw [hq, hl]
+    split
+    · next hc => exact chunk_spec ps hs _ hc
+    · exact ⟨hs, rfl⟩
   obtain ⟨b', e1, e2⟩ := rep_buf_write g hg hrep qs hq2
-  rw [hq3, ← hq] at e1 e2
+  rw [hq3] at e1 e2
   rw [← hd1] at e2
   have hinv1 : DecBuf.Inv d1.buf := by rw [hd1]; exact (C06_buf_write_inv g d.buf q hinv).1
-  obtain ⟨gd2, f1, f2⟩ := rep_writeTo e2 hinv1
+  obtain ⟨gd2, f1, fl1, f2⟩ := rep_flush e2 hinv1
   have hkq := (dbuf_write_k g d.buf q).1
   have hql : q.length ≤ ps.len := by
     rw [hq]; split
     · simp only [List.length_take]; omega
     · omega
-  obtain ⟨ps', hp1, hp2, hp3⟩ := slice_from ps hs (d.buf.write g q).2.1 (by omega)
-  refine ⟨⟨b', gd.w⟩, gd2, ps', e2, f2, hp2, hp3, ?_⟩
+  obtain ⟨hp2, hp3⟩ := slice_from ps hs (d.buf.write g q).2.1 (by omega)
+  refine ⟨⟨b', gd.w⟩, gd2, _, e2, f2, hp2, hp3, ?_⟩
   intro f err0 n r1 r2
+  unfold wLoop
   rw [Decoder_Write_loop_1]
-  have hpos : (Int.ofNat ps.len) > 0 := by show (ps.len : Int) > 0; omega
-  simp only [hpos, if_true, hm]
-  rw [hq1]
-  simp only [bind_ok]
+  simp only [Int.ofNat_eq_natCast]
+  -- the loop condition `len(p) > 0`
+  rw [if_pos (by omega)]
+  -- the chunk: the `if` is decided by arithmetic, in any spelling
+  have hchunk : ∀ {β : Type} (X : Res Slice) (K : Slice → Res β), X = Res.ok qs → Res.bind X K = K qs := by
+    intro β X K hX; rw [hX]; rfl
+  rw [bind_assoc, hchunk]
+  rotate_left
+  · by_cases hc : ps.len > d.buf.bs - d.buf.ws
+    · rw [if_pos (by omega)]
+      rw [slice_okI ps _ _ 0 (d.buf.bs - d.buf.ws) (by omega) (by omega) (by omega) (by omega)]
+      simp only [bind_ok, hqs, hc, if_true]
+    · rw [if_neg (by omega)]
+      simp only [hqs, hc, if_false]
   rw [e1]
   simp only [bind_ok]
-  rw [hp1]
-  simp only [bind_ok, ne_eq, genErr_full_iff, genErr_ok_iff]
+  rw [slice_okI ps _ _ (d.buf.write g q).2.1 ps.len (by omega) (by omega) (by omega) hswf]
+  simp only [bind_ok]
   by_cases h0 : (d.buf.write g q).2.2 = .ok
-  · simp only [h0, if_true]
-  · simp only [h0, if_false]
-    by_cases h1 : (d.buf.write g q).2.2 = .full
-    · simp only [h1, not_true_eq_false, if_false]
+  · simp only [h0, ne_eq, genErr_full_iff, genErr_full_iff', genErr_ok_iff, genErr_ok_iff', not_true_eq_false,
+      not_false_eq_true, if_true, if_false, reduceCtorEq]
+    loop_step_close
+  · by_cases h1 : (d.buf.write g q).2.2 = .full
+    · simp only [h1, ne_eq, genErr_full_iff, genErr_full_iff', genErr_ok_iff, genErr_ok_iff', not_true_eq_false,
+        not_false_eq_true, if_true, if_false, reduceCtorEq]
       simp only [] at f1
-      rw [f1]
-      simp only [bind_ok, genErr_ok_iff]
-    · simp only [h1, not_false_eq_true, if_true]
-
-/-- what `Decoder_Write` does with the result of its loop (exit code 1 = `return n, err` inside the loop,
-    0 = the loop ended: `return n, nil`) -/
-def writeFin (r : Nat × Gen.Decoder Writer × Int × Slice × Int × Gen.Err) : Res (Gen.Decoder Writer × Int × Gen.Err) :=
-  if r.1 = 1 then Res.ok (r.2.1, r.2.2.2.2.1, r.2.2.2.2.2) else Res.ok (r.2.1, r.2.2.1, Gen.Err.ok)
+      first | rw [f1] | rw [fl1]
+      simp only [bind_ok]
+      by_cases h2 : d1.writeTo.2.2 = .ok
+      · simp only [h2, ne_eq, genErr_full_iff, genErr_full_iff', genErr_ok_iff, genErr_ok_iff', not_true_eq_false,
+          not_false_eq_true, if_true, if_false, reduceCtorEq]
+        loop_step_close
+      · simp only [h2, ne_eq, genErr_full_iff, genErr_full_iff', genErr_ok_iff, genErr_ok_iff', not_true_eq_false,
+          not_false_eq_true, if_true, if_false, bind_ok]
+        loop_step_close
+    · simp only [h0, h1, ne_eq, genErr_full_iff, genErr_full_iff', genErr_ok_iff, genErr_ok_iff', not_true_eq_false,
+        not_false_eq_true, if_true, if_false, bind_ok]
+      loop_step_close
 
 theorem write_model_unfold (g : Grow) (d : LZ.Decoder) (p : List Byte) (acc : Nat) (hp : p.length ≠ 0) (q : List Byte)
     (hq : q = if p.length > d.buf.bs - d.buf.ws then p.take (d.buf.bs - d.buf.ws) else p) :
@@ -453,7 +638,7 @@ theorem write_model_unfold (g : Grow) (d : LZ.Decoder) (p : List Byte) (acc : Na
 theorem write_loop_eq (g : Grow) (hg : GrowOK g) : ∀ (d : LZ.Decoder) (p : List Byte) (acc : Nat), DecBuf.Inv d.buf →
     (d.write g p acc).2.2 ≠ hangErr → ∃ N, ∀ (gd : Gen.Decoder Writer), Rep gd d → ∀ (ps : Slice), SWF ps → ps.data = p →
     ∀ fuel, N ≤ fuel → ∀ (err0 : Gen.Err) (r1 : Int) (r2 : Gen.Err), ∃ gd',
-      Res.bind (Decoder_Write_loop_1 g mWrite err0 fuel gd (acc : Int) ps r1 r2) writeFin =
+      Res.bind (wLoop g fuel gd (acc : Int) ps err0 r1 r2) writeFin =
         Res.ok (gd', ((d.write g p acc).2.1 : Int), genErr (d.write g p acc).2.2) ∧ Rep gd' (d.write g p acc).1 := by
   intro d p acc
   induction d, p, acc using Decoder.write.induct g with
@@ -462,9 +647,12 @@ theorem write_loop_eq (g : Grow) (hg : GrowOK g) : ∀ (d : LZ.Decoder) (p : Lis
     refine ⟨1, fun gd hrep ps hs hps fuel hf err0 r1 r2 => ?_⟩
     obtain ⟨f, rfl⟩ : ∃ f, fuel = f + 1 := ⟨fuel - 1, by omega⟩
     have hl := data_length hs
-    have hnpos : ¬ (Int.ofNat ps.len) > 0 := by show ¬ (ps.len : Int) > 0; rw [hps] at hl; omega
+    rw [hps] at hl
+    unfold wLoop
     rw [Decoder_Write_loop_1, Decoder.write]
-    simp only [hnpos, if_false, hp, dite_true]
+    simp only [Int.ofNat_eq_natCast]
+    rw [if_neg (by omega)]
+    simp only [hp, dite_true]
     exact ⟨gd, rfl, hrep⟩
   | case2 d p acc hp m q b k d1 hk hw ih =>
     intro hinv hnh
@@ -483,10 +671,11 @@ theorem write_loop_eq (g : Grow) (hg : GrowOK g) : ∀ (d : LZ.Decoder) (p : Lis
     rw [hw] at hps' hstep
     simp only [if_true] at hstep
     obtain ⟨f, rfl⟩ : ∃ f, fuel = f + 1 := ⟨fuel - 1, by omega⟩
-    rw [hstep]
+    obtain ⟨err', hs1⟩ := hstep f err0 (acc : Int) r1 r2
+    rw [hs1]
     have hcast : (acc : Int) + (k : Int) = ((acc + k : Nat) : Int) := by omega
     rw [hcast]
-    exact hN gd1 q1 ps' hs' hps' f (by omega) err0 r1 r2
+    exact hN gd1 q1 ps' hs' hps' f (by omega) err' r1 r2
   | case3 d p acc hp m q b k hk hw =>
     intro hinv hnh
     exfalso; apply hnh
@@ -505,7 +694,8 @@ theorem write_loop_eq (g : Grow) (hg : GrowOK g) : ∀ (d : LZ.Decoder) (p : Lis
     rw [hw] at hps' hstep q1 ⊢
     simp only [he, hnf, ne_eq, not_false_eq_true, if_true, if_false] at hstep ⊢
     obtain ⟨f, rfl⟩ : ∃ f, fuel = f + 1 := ⟨fuel - 1, by omega⟩
-    rw [hstep]
+    obtain ⟨err', hs1⟩ := hstep f err0 (acc : Int) r1 r2
+    rw [hs1]
     refine ⟨gd1, ?_, q1⟩
     simp only [bind_ok, writeFin, if_true]
     congr 2
@@ -522,7 +712,8 @@ theorem write_loop_eq (g : Grow) (hg : GrowOK g) : ∀ (d : LZ.Decoder) (p : Lis
     simp only [d1, hwt] at q2 hstep
     simp only [he, hf, hwt, he2, ne_eq, not_false_eq_true, not_true_eq_false, if_true, if_false] at hstep ⊢
     obtain ⟨f, rfl⟩ : ∃ f, fuel = f + 1 := ⟨fuel - 1, by omega⟩
-    rw [hstep]
+    obtain ⟨err', hs1⟩ := hstep f err0 (acc : Int) r1 r2
+    rw [hs1]
     refine ⟨gd2, ?_, q2⟩
     simp only [bind_ok, writeFin, if_true]
     congr 2
@@ -549,10 +740,11 @@ theorem write_loop_eq (g : Grow) (hg : GrowOK g) : ∀ (d : LZ.Decoder) (p : Lis
     simp only [d1, hwt'] at q2 hstep
     simp only [he, hf, he2, ne_eq, not_false_eq_true, not_true_eq_false, if_true, if_false] at hstep
     obtain ⟨f, rfl⟩ : ∃ f, fuel = f + 1 := ⟨fuel - 1, by omega⟩
-    rw [hstep]
+    obtain ⟨err', hs1⟩ := hstep f err0 (acc : Int) r1 r2
+    rw [hs1]
     have hcast : (acc : Int) + (k : Int) = ((acc + k : Nat) : Int) := by omega
     rw [hcast]
-    exact hN gd2 q2 ps' hs' hps' f (by omega) err0 r1 r2
+    exact hN gd2 q2 ps' hs' hps' f (by omega) err' r1 r2
   | case7 d p acc hp m q b k e hw d1 he hf d' fst e2 hwt he2 hprog =>
     intro hinv hnh
     exfalso; apply hnh
@@ -574,8 +766,8 @@ theorem gen_decoder_write (g : Grow) (hg : GrowOK g) (d : LZ.Decoder) (hinv : De
   refine ⟨N, fun gd hrep ps hs hps fuel hf => ?_⟩
   obtain ⟨gd', h1, h2⟩ := hN gd hrep ps hs hps fuel hf Gen.Err.ok 0 Gen.Err.ok
   refine ⟨gd', ?_, h2⟩
-  rw [← h1]
-  rfl
+  rw [decoder_write_eq]
+  exact h1
 
 /-! ## WriteBlock -/
 
@@ -625,6 +817,27 @@ theorem listSliceFrom_ok {α : Type} (s : List α) (k : Nat) (hk : k ≤ s.lengt
   have : (0 : Int) ≤ (k : Int) ∧ (k : Int) ≤ Int.ofNat s.length := ⟨by omega, by show (k : Int) ≤ (s.length : Int); omega⟩
   simp only [this, and_self, if_true, Int.toNat_natCast]
 
+/-- the retry loop of `WriteBlock`, called by name (`err`: the named result, captured or carried by the loop or
+    neither), with the result in the fixed order (exit, d, n, k, l, blk, ret_1, ret_2, ret_3, ret_4) -/
+def wkLoop (g : Grow) (fuel : Nat) (gd : Gen.Decoder Writer) (n k l : Int) (blk : Block') (err : Gen.Err)
+    (r1 r2 r3 : Int) (r4 : Gen.Err) :
+    Res (Nat × Gen.Decoder Writer × Int × Int × Int × Block' × Int × Int × Int × Gen.Err) :=
+  Res.bind (gcall% Decoder_WriteBlock_loop_1 [grow := g, io_Writer_Write := mWrite, err := err, fuel := fuel, d := gd,
+      n := n, k := k, l := l, blk := blk, ret_1 := r1, ret_2 := r2, ret_3 := r3, ret_4 := r4])
+    fun r => Res.ok (r.1, gproj% Decoder_WriteBlock_loop_1 d r, gproj% Decoder_WriteBlock_loop_1 n r,
+      gproj% Decoder_WriteBlock_loop_1 k r, gproj% Decoder_WriteBlock_loop_1 l r,
+      gproj% Decoder_WriteBlock_loop_1 blk r, gproj% Decoder_WriteBlock_loop_1 ret_1 r,
+      gproj% Decoder_WriteBlock_loop_1 ret_2 r, gproj% Decoder_WriteBlock_loop_1 ret_3 r,
+      gproj% Decoder_WriteBlock_loop_1 ret_4 r)
+
+/-- `Decoder_WriteBlock` = its loop + `return ret_1, ret_2, ret_3, ret_4` -/
+theorem decoder_writeBlock_eq (g : Grow) (fuel : Nat) (gd : Gen.Decoder Writer) (blk : Block') :
+    Decoder_WriteBlock g fuel mWrite gd blk =
+      Res.bind (wkLoop g fuel gd 0 0 0 blk Gen.Err.ok 0 0 0 Gen.Err.ok) fun r =>
+        Res.ok (r.2.1, r.2.2.2.2.2.2.1, r.2.2.2.2.2.2.2.1, r.2.2.2.2.2.2.2.2.1, r.2.2.2.2.2.2.2.2.2) := by
+  unfold Decoder_WriteBlock wkLoop
+  simp only [bind_assoc, bind_ok]
+
 /-- one iteration of the retry loop of `WriteBlock`, in terms of the model operations -/
 theorem writeBlock_loop_step (g : Grow) (hg : GrowOK g) {gd : Gen.Decoder Writer} {d : LZ.Decoder} (hrep : Rep gd d)
     (hinv : DecBuf.Inv d.buf) (blk : Block') (hl : SWF blk.Literals)
@@ -633,8 +846,8 @@ theorem writeBlock_loop_step (g : Grow) (hg : GrowOK g) {gd : Gen.Decoder Writer
     (f : Nat) (hf : 4294967296 ≤ f) :
     ∃ gd1 gd2 blk', Rep gd1 { d with buf := R.1 } ∧ Rep gd2 W.1 ∧ SWF blk'.Literals ∧
       ofBlock blk' = ⟨(ofBlock blk).seqs.drop R.2.2.1, (ofBlock blk).lits.drop R.2.2.2.1⟩ ∧
-      ∀ (err0 : Gen.Err) (n k l r1 r2 r3 : Int) (r4 : Gen.Err),
-        Decoder_WriteBlock_loop_1 g mWrite err0 (f + 1) gd n k l blk r1 r2 r3 r4 =
+      ∀ (err0 : Gen.Err) (n k l r1 r2 r3 : Int) (r4 : Gen.Err), ∃ err',
+        wkLoop g (f + 1) gd n k l blk err0 r1 r2 r3 r4 =
           if R.2.2.2.2 ≠ .full then
             Res.ok (1, gd1, n + R.2.1, k + (R.2.2.1 : Int), l + (R.2.2.2.1 : Int), blk,
               n + R.2.1, k + (R.2.2.1 : Int), l + (R.2.2.2.1 : Int), genErr R.2.2.2.2)
@@ -645,7 +858,7 @@ theorem writeBlock_loop_step (g : Grow) (hg : GrowOK g) {gd : Gen.Decoder Writer
           else if W.2.2 ≠ .ok then
             Res.ok (1, gd2, n + R.2.1, k + (R.2.2.1 : Int), l + (R.2.2.2.1 : Int), blk',
               n + R.2.1, k + (R.2.2.1 : Int), l + (R.2.2.2.1 : Int), genErr W.2.2)
-          else Decoder_WriteBlock_loop_1 g mWrite err0 f gd2 (n + R.2.1) (k + (R.2.2.1 : Int)) (l + (R.2.2.2.1 : Int)) blk'
+          else wkLoop g f gd2 (n + R.2.1) (k + (R.2.2.1 : Int)) (l + (R.2.2.2.1 : Int)) blk' err'
             r1 r2 r3 r4 := by
   have hpost := DecBuf.wbuf_post g d.buf (ofBlock blk) hinv
   obtain ⟨hinv1, _, _, _, hkk, hll, _⟩ := hpost
@@ -654,34 +867,45 @@ theorem writeBlock_loop_step (g : Grow) (hg : GrowOK g) {gd : Gen.Decoder Writer
   have hlitl : (ofBlock blk).lits.length = blk.Literals.len := by simp only [ofBlock]; exact data_length hl
   rw [hseql] at hkk
   rw [hlitl] at hll
-  obtain ⟨lits', hp1, hp2, hp3⟩ := slice_from blk.Literals hl R.2.2.2.1 hll
+  have hswf : blk.Literals.len ≤ blk.Literals.arr.length := hl
+  obtain ⟨hp2, hp3⟩ := slice_from blk.Literals hl R.2.2.2.1 hll
   obtain ⟨b', e1, e2⟩ := rep_buf_writeBlock g hg hrep hinv blk hl f hf
   rw [← hR] at e1 e2
-  obtain ⟨gd2, f1, f2⟩ := rep_writeTo e2 hinv1
-  rw [← hW] at f1 f2
-  refine ⟨⟨b', gd.w⟩, gd2, { Sequences := blk.Sequences.drop R.2.2.1, Literals := lits' }, e2, f2, hp2, ?_, ?_⟩
+  obtain ⟨gd2, f1, fl1, f2⟩ := rep_flush e2 hinv1
+  rw [← hW] at f1 fl1 f2
+  refine ⟨⟨b', gd.w⟩, gd2, (⟨blk.Sequences.drop R.2.2.1,
+    ⟨blk.Literals.arr.drop R.2.2.2.1, blk.Literals.len - R.2.2.2.1⟩⟩ : Block'), e2, f2, hp2, ?_, ?_⟩
   · simp only [ofBlock, hp3, List.map_drop]
   intro err0 n k l r1 r2 r3 r4
+  unfold wkLoop
   rw [Decoder_WriteBlock_loop_1]
   rw [e1]
-  simp only [bind_ok, ne_eq, genErr_full_iff]
+  simp only [bind_ok]
   by_cases h1 : R.2.2.2.2 = .full
-  · simp only [h1, not_true_eq_false, if_false]
+  · simp only [h1, ne_eq, genErr_full_iff, genErr_full_iff', genErr_ok_iff, genErr_ok_iff', not_true_eq_false,
+      not_false_eq_true, if_true, if_false, reduceCtorEq]
     rw [listSliceFrom_ok _ _ hkk]
-    simp only [bind_ok]
-    rw [hp1]
-    simp only [bind_ok, Int.ofNat_eq_natCast, List.length_drop, hseql]
+    simp only [bind_ok, Int.ofNat_eq_natCast]
+    rw [slice_okI blk.Literals _ _ R.2.2.2.1 blk.Literals.len (by omega) (by omega) (by omega) hswf]
+    simp only [bind_ok, List.length_drop, hseql]
     by_cases h2 : blk.Sequences.length - R.2.2.1 = 0
-    · have h2' : ((blk.Sequences.length - R.2.2.1 : Nat) : Int) = 0 := by omega
-      simp only [h2', if_true]
-      simp only [h2, if_true]
-    · have h2' : ¬ ((blk.Sequences.length - R.2.2.1 : Nat) : Int) = 0 := by omega
-      simp only [h2', if_false]
-      simp only [h2, if_false]
-      simp only [] at f1
-      rw [f1]
-      simp only [bind_ok, genErr_ok_iff]
-  · simp only [h1, not_false_eq_true, if_true]
+    · -- `len(blk.Sequences) == 0` in any spelling
+      simp (disch := omega) only [h2, if_pos, if_true, bind_assoc, bind_ok]
+      loop_step_close
+    · simp (disch := omega) only [h2, if_neg, if_false]
+      simp only [] at f1 fl1
+      first | rw [f1] | rw [fl1]
+      simp only [bind_ok]
+      by_cases h3 : W.2.2 = .ok
+      · simp only [h3, ne_eq, genErr_full_iff, genErr_full_iff', genErr_ok_iff, genErr_ok_iff', not_true_eq_false,
+          not_false_eq_true, if_true, if_false, reduceCtorEq]
+        loop_step_close
+      · simp only [h3, ne_eq, genErr_full_iff, genErr_full_iff', genErr_ok_iff, genErr_ok_iff', not_true_eq_false,
+          not_false_eq_true, if_true, if_false, bind_ok]
+        loop_step_close
+  · simp only [h1, ne_eq, genErr_full_iff, genErr_full_iff', genErr_ok_iff, genErr_ok_iff', not_true_eq_false,
+      not_false_eq_true, if_true, if_false, bind_ok]
+    loop_step_close
 
 /-- the retry loop of `WriteBlock` = the model's recursion, for every sufficient fuel (`N` depends on the model
     state and the block only), provided the model does not take a "would spin forever" branch (C06) -/
@@ -689,7 +913,7 @@ theorem writeBlock_loop_eq (g : Grow) (hg : GrowOK g) : ∀ (d : LZ.Decoder) (se
     (n : Int) (k l : Nat), DecBuf.Inv d.buf → (d.writeBlock g seqs lits n k l).2.2.2.2 ≠ hangErr →
     ∃ N, ∀ (gd : Gen.Decoder Writer), Rep gd d → ∀ (blk : Block'), SWF blk.Literals → ofBlock blk = ⟨seqs, lits⟩ →
     ∀ fuel, N ≤ fuel → ∀ (err0 : Gen.Err) (r1 r2 r3 : Int) (r4 : Gen.Err), ∃ gd' c n' k' l' blk',
-      Decoder_WriteBlock_loop_1 g mWrite err0 fuel gd n (k : Int) (l : Int) blk r1 r2 r3 r4 =
+      wkLoop g fuel gd n (k : Int) (l : Int) blk err0 r1 r2 r3 r4 =
         Res.ok (c, gd', n', k', l', blk', (d.writeBlock g seqs lits n k l).2.1, ((d.writeBlock g seqs lits n k l).2.2.1 : Int),
           ((d.writeBlock g seqs lits n k l).2.2.2.1 : Int), genErr (d.writeBlock g seqs lits n k l).2.2.2.2) ∧
       Rep gd' (d.writeBlock g seqs lits n k l).1 := by
@@ -705,7 +929,8 @@ theorem writeBlock_loop_eq (g : Grow) (hg : GrowOK g) : ∀ (d : LZ.Decoder) (se
     rw [hob] at hstep q1
     rw [hwb] at hstep q1 ⊢
     simp only [he, ne_eq, not_false_eq_true, if_true] at hstep ⊢
-    rw [hstep]
+    obtain ⟨err', hs1⟩ := hstep err0 n (k : Int) (l : Int) r1 r2 r3 r4
+    rw [hs1]
     exact ⟨gd1, _, _, _, _, _, rfl, q1⟩
   | case2 d seqs lits n k l b nn kk ll e hwb d1 he seqs' lits' hs d' m e2 hw =>
     intro hinv hnh
@@ -728,7 +953,8 @@ theorem writeBlock_loop_eq (g : Grow) (hg : GrowOK g) : ∀ (d : LZ.Decoder) (se
       simpa only [ofBlock] using this
     obtain ⟨gd', w1, w2⟩ := hNw gd1 q1 blk'.Literals hl' hlit f (by omega)
     rw [hw] at w1 w2
-    rw [hstep, w1]
+    obtain ⟨err', hs1⟩ := hstep err0 n (k : Int) (l : Int) r1 r2 r3 r4
+    rw [hs1, w1]
     exact ⟨gd', _, _, _, _, _, rfl, w2⟩
   | case3 d seqs lits n k l b nn kk ll e hwb d1 he seqs' hs d' fst e2 hwt he2 =>
     intro hinv hnh
@@ -742,7 +968,8 @@ theorem writeBlock_loop_eq (g : Grow) (hg : GrowOK g) : ∀ (d : LZ.Decoder) (se
     simp only [seqs'] at hs
     simp only [d1] at hwt
     simp only [he, hs, hwt, he2, ne_eq, not_false_eq_true, not_true_eq_false, if_true, if_false] at hstep q2 ⊢
-    rw [hstep]
+    obtain ⟨err', hs1⟩ := hstep err0 n (k : Int) (l : Int) r1 r2 r3 r4
+    rw [hs1]
     exact ⟨gd2, _, _, _, _, _, rfl, q2⟩
   | case4 d seqs lits n k l b nn kk ll e hwb d1 n1 k1 l1 he seqs' lits' hs d' fst e2 hwt he2 hkk ih =>
     intro hinv hnh
@@ -766,8 +993,9 @@ theorem writeBlock_loop_eq (g : Grow) (hg : GrowOK g) : ∀ (d : LZ.Decoder) (se
     rw [hob] at hstep q2 hob'
     rw [hwb] at hstep q2 hob'
     simp only [he, hs, hwt', he2, ne_eq, not_false_eq_true, not_true_eq_false, if_true, if_false] at hstep q2
-    rw [hstep]
-    exact hN gd2 q2 blk' hl' hob' f (by omega) err0 r1 r2 r3 r4
+    obtain ⟨err', hs1⟩ := hstep err0 n (k : Int) (l : Int) r1 r2 r3 r4
+    rw [hs1]
+    exact hN gd2 q2 blk' hl' hob' f (by omega) err' r1 r2 r3 r4
   | case5 d seqs lits n k l b nn kk ll e hwb d1 n1 k1 l1 he seqs' lits' hs d' fst e2 hwt he2 hkk hprog ih =>
     intro hinv hnh
     have hinv1 : DecBuf.Inv d1.buf := by
@@ -790,8 +1018,9 @@ theorem writeBlock_loop_eq (g : Grow) (hg : GrowOK g) : ∀ (d : LZ.Decoder) (se
     rw [hob] at hstep q2 hob'
     rw [hwb] at hstep q2 hob'
     simp only [he, hs, hwt', he2, ne_eq, not_false_eq_true, not_true_eq_false, if_true, if_false] at hstep q2
-    rw [hstep]
-    exact hN gd2 q2 blk' hl' hob' f (by omega) err0 r1 r2 r3 r4
+    obtain ⟨err', hs1⟩ := hstep err0 n (k : Int) (l : Int) r1 r2 r3 r4
+    rw [hs1]
+    exact hN gd2 q2 blk' hl' hob' f (by omega) err' r1 r2 r3 r4
   | case6 d seqs lits n k l b nn kk ll e hwb d1 he seqs' hs d' fst e2 hwt he2 hkk hprog =>
     intro hinv hnh
     exfalso; apply hnh
@@ -815,11 +1044,9 @@ theorem gen_decoder_writeBlock (g : Grow) (hg : GrowOK g) (d : LZ.Decoder) (hinv
   refine ⟨N, fun gd hrep blk hl hob fuel hf => ?_⟩
   obtain ⟨gd', c, n', k', l', blk', h1, h2⟩ := hN gd hrep blk hl hob fuel hf Gen.Err.ok 0 0 0 Gen.Err.ok
   refine ⟨gd', ?_, h2⟩
-  unfold Decoder_WriteBlock
-  simp only []
   have h0 : ((0 : Nat) : Int) = 0 := rfl
   rw [h0] at h1
-  rw [h1]
+  rw [decoder_writeBlock_eq, h1]
   rfl
 
 end LZ.GenDec
